@@ -26,16 +26,56 @@ fn compare_numbers_for_range<F>(left: &Value, right: &Value, cmp: &F) -> Value
 where
     F: Fn(Ordering) -> bool,
 {
-    let (l, r) = match (value_as_f64(left), value_as_f64(right)) {
-        (Some(l), Some(r)) => (l, r),
-        _ => return Value::Null,
+    // Integers are compared exactly; going through f64 would merge neighbours above 2^53.
+    let ord = match (left, right) {
+        (Value::Int(l), Value::Int(r)) => l.cmp(r),
+        (Value::Int(l), Value::Float(r)) => {
+            if r.is_nan() {
+                return Value::Bool(false);
+            }
+            compare_i64_f64(*l, *r)
+        }
+        (Value::Float(l), Value::Int(r)) => {
+            if l.is_nan() {
+                return Value::Bool(false);
+            }
+            compare_i64_f64(*r, *l).reverse()
+        }
+        _ => {
+            let (l, r) = match (value_as_f64(left), value_as_f64(right)) {
+                (Some(l), Some(r)) => (l, r),
+                _ => return Value::Null,
+            };
+            if l.is_nan() || r.is_nan() {
+                return Value::Bool(false);
+            }
+            match l.partial_cmp(&r) {
+                Some(ord) => ord,
+                None => return Value::Null,
+            }
+        }
     };
-    if l.is_nan() || r.is_nan() {
-        return Value::Bool(false);
+    Value::Bool(cmp(ord))
+}
+
+/// Exact comparison of an integer with a non-NaN float.
+///
+/// `i as f64` rounds above 2^53, which makes distinct integers compare equal to the same float
+/// (and to each other through it). Compare the integral parts as integers instead.
+pub(super) fn compare_i64_f64(i: i64, f: f64) -> Ordering {
+    const TWO_POW_63: f64 = 9_223_372_036_854_775_808.0;
+    if f >= TWO_POW_63 {
+        return Ordering::Less;
     }
-    l.partial_cmp(&r)
-        .map(|ord| Value::Bool(cmp(ord)))
-        .unwrap_or(Value::Null)
+    if f < -TWO_POW_63 {
+        return Ordering::Greater;
+    }
+    // -2^63 <= f < 2^63: the integral part converts to i64 without loss.
+    let integral = f.trunc();
+    match i.cmp(&(integral as i64)) {
+        Ordering::Equal => 0.0f64.partial_cmp(&(f - integral)).unwrap_or(Ordering::Equal),
+        ord => ord,
+    }
 }
 
 fn compare_lists_for_range<F>(left: &[Value], right: &[Value], cmp: &F) -> Value
@@ -140,8 +180,16 @@ pub(super) fn order_compare_non_null(left: &Value, right: &Value) -> Option<Orde
         (Value::Bool(l), Value::Bool(r)) => Some(l.cmp(r)),
         (Value::Int(l), Value::Int(r)) => Some(l.cmp(r)),
         (Value::Float(l), Value::Float(r)) => Some(compare_f64_with_nan(*l, *r)),
-        (Value::Int(l), Value::Float(r)) => Some(compare_f64_with_nan(*l as f64, *r)),
-        (Value::Float(l), Value::Int(r)) => Some(compare_f64_with_nan(*l, *r as f64)),
+        (Value::Int(l), Value::Float(r)) => Some(if r.is_nan() {
+            Ordering::Less
+        } else {
+            compare_i64_f64(*l, *r)
+        }),
+        (Value::Float(l), Value::Int(r)) => Some(if l.is_nan() {
+            Ordering::Greater
+        } else {
+            compare_i64_f64(*r, *l).reverse()
+        }),
         (Value::String(l), Value::String(r)) => Some(compare_strings_with_temporal(l, r)),
         _ => {
             let rank_cmp = value_order_rank(left).cmp(&value_order_rank(right));
